@@ -1406,6 +1406,43 @@ def dispatch(ctx, world):
     if not generic_seen:
         ctx.fail("A13.align", "defvjp:generic", f"{q}:generic", loc, "vjp_argnums has no path for an arbitrary number of differentiated arguments", "a primitive with three or more differentiated arguments")
     ctx.floor("A13.align defvjp branches", checked, 1)
+    # extra dispatchers: a registration function that hands a special-cased dispatcher to the *_argnums API on some
+    # path (a "single-rule fast path") still has to select the rule BY the differentiated argument: the dispatcher is
+    # called with the argnums that are traced, whatever was registered.  One that looks at len(argnums) only applies
+    # its rule to whichever argument happens to be traced.
+    for (modname_, outer_), extras_ in sorted(getattr(world, "extra_dispatchers", {}).items()):
+        for reg_, clo_x, pre_x, prekw_x in extras_:
+            inst_ = f"{outer_}: extra dispatcher `{norm_text(reg_.node)[:50] if reg_.node is not None else '?'}`"
+            loc_x = loc_of(world.repo.mod(modname_), reg_.node) if reg_.node is not None else loc
+            if clo_x is None:
+                ctx.ob("A13.align", inst_, None, loc_x)
+                continue
+            a_ = clo_x.fnode.args
+            nparams = len(a_.posonlyargs + a_.args)
+            psyms = [T("sym", name=p_.arg, role="param") for p_ in (a_.posonlyargs + a_.args)]
+            k_an = len(pre_x)  # the first parameter the API supplies is `argnums`
+            if k_an >= nparams:
+                ctx.ob("A13.align", inst_, None, loc_x)
+                continue
+            an_ = psyms[k_an]
+            body_ = ev.apply(clo_x, list(pre_x) + psyms[k_an:], dict(prekw_x), [])
+            body_ = unseq(expand(ev, body_, KEEP_D)) if body_ is not None else None
+            reads_elements = False
+            for t_ in (walk(body_) if body_ is not None else []):
+                if t_.op == "sub" and t_.obj is an_:
+                    reads_elements = True
+                elif t_.op == "iterelem" and any(x_ is an_ for x_ in walk(t_.src)):
+                    reads_elements = True
+                elif t_.op == "cmp" and (t_.l is an_ or t_.r is an_) and t_.opname in ("Eq", "NotEq", "In", "NotIn"):
+                    reads_elements = True
+                elif t_.op == "star" and t_.x is an_:
+                    reads_elements = True
+                elif t_.op == "comp" and any(x_ is an_ for x_ in walk(t_.src)):
+                    reads_elements = True
+            if reads_elements:
+                ctx.ob("A13.align", inst_, True, loc_x, sample="selects by the elements of argnums")
+            else:
+                ctx.fail("A13.align", inst_, f"autograd.core.{outer_}|extra-dispatcher-ignores-argnums", loc_x, f"{outer_} registers a second dispatcher on a special path that never looks at WHICH arguments are differentiated (the elements of its `argnums` parameter; at most their number): its rule is applied to whatever argument is traced, and an argument without a rule no longer raises", "a primitive with one registered rule called with a different argument traced: defvjp(f, rule_for_arg0) and grad(f, 1)")
     # vjps_dict = {argnum: translate_vjp(maker, fun, argnum) for argnum, maker in zip(argnums, makers)}
     for fname, tr, dname in (("defvjp", "translate_vjp", "vjps_dict"), ("defjvp", "translate_jvp", "jvps_dict")):
         rr, sy, m2, fn, scd = eval_function(world, CORE, fname)
